@@ -303,8 +303,29 @@ def eval_group(env, group, tier):
                     if spec is not None:
                         env.set_config(re.sub(r'(?m)^default_file_size_format.*$', '', conf) + "\ndefault_file_size_format = '%s'\n" % spec)
                     o = env.run(['name, fsize, hsize from . into list'], cwd=root)
+                    # FORMAT_SIZE next to fsize: each value is what it is alone (the configured default belongs to fsize only)
+                    alone = {}
+                    for e_ in ('format_size(size)', "format_size(size, '%.1 d')", 'fsize'):
+                        oa = env.run(['name, %s from . into list' % e_], cwd=root)
+                        alone[e_] = dict(oa.rows(2) or [])
+                    comp = []
+                    for cols in (['fsize', 'format_size(size)'], ['format_size(size)', 'fsize'], ['hsize', 'format_size(size)', "format_size(size, '%.1 d')"],
+                                 ["format_size(size, '%.1 d')", 'fsize', 'format_size(size)']):
+                        oc = env.run(['name, %s from . into list' % ', '.join(cols)], cwd=root)
+                        for row in oc.rows(1 + len(cols)) or [('?',) * (1 + len(cols))]:
+                            for c_, v_ in zip(cols, row[1:]):
+                                want_ = alone['fsize' if c_ == 'hsize' else c_].get(row[0])
+                                if v_ != want_:
+                                    comp.append((', '.join(cols), row[0], c_, v_, want_))
                 finally:
                     env.set_config(conf)
+                rc_ = {'case': {'kind': 'fsize', 'spec': spec, 'company': True}, 'nt': True, 'layer': 'fsize-company', 'trans': 4}
+                if comp:
+                    rc_.update(status='viol', cls='format-size-next-to-fsize', sig=('fsize-company',),
+                               detail={'spec': spec, 'select': comp[0][0], 'row': comp[0][1], 'column': comp[0][2], 'got': comp[0][3], 'alone': comp[0][4]})
+                else:
+                    rc_.update(status='ok', sig=('company', spec))
+                outs.append(rc_)
                 rows = o.rows(3) or []
                 s = parse_spec(spec or '')
                 r = {'case': {'kind': 'fsize', 'spec': spec}, 'nt': True, 'layer': 'fsize', 'trans': len(rows)}
